@@ -22,6 +22,17 @@ pub fn generate(seed: u64, n: usize, out: &Path) -> Result<usize, String> {
         std::fs::create_dir_all(&dir).map_err(|e| e.to_string())?;
         std::fs::write(dir.join("matrix.def"), &spec.matrix).map_err(|e| e.to_string())?;
         std::fs::write(dir.join("lex.csv"), &spec.system_csv).map_err(|e| e.to_string())?;
+        // half of the worlds give the lexicon to the front ends as two files whose names sort in the opposite order
+        // (word ids are line numbers over the files *as listed*)
+        let rows: Vec<&str> = spec.system_csv.split_inclusive('\n').collect();
+        let lex_files: Vec<String> = if rows.len() >= 2 && rng.chance(1, 2) && !spec.system_csv.contains('"') {
+            let k = 1 + rng.below(rows.len() - 1);
+            std::fs::write(dir.join("part_b.csv"), rows[..k].concat()).map_err(|e| e.to_string())?;
+            std::fs::write(dir.join("part_a.csv"), rows[k..].concat()).map_err(|e| e.to_string())?;
+            vec!["part_b.csv".into(), "part_a.csv".into()]
+        } else {
+            vec!["lex.csv".into()]
+        };
         let sys = compile_system(spec.matrix.as_bytes(), &[spec.system_csv.as_bytes()], FIXED_TIME, "")?;
         std::fs::write(dir.join("ref_system.dic"), &sys).map_err(|e| e.to_string())?;
         let mut user_len = 0;
@@ -47,7 +58,7 @@ pub fn generate(seed: u64, n: usize, out: &Path) -> Result<usize, String> {
             uks.sort();
             uks.dedup();
         }
-        lines.push_str(&json!({"case": i, "dir": dir.display().to_string(), "system_len": l, "user_len": user_len, "offsets": ks, "user_offsets": uks}).to_string());
+        lines.push_str(&json!({"case": i, "dir": dir.display().to_string(), "system_len": l, "user_len": user_len, "offsets": ks, "user_offsets": uks, "lex_files": lex_files}).to_string());
         lines.push('\n');
     }
     std::fs::write(out.join("cases.jsonl"), lines).map_err(|e| e.to_string())?;
